@@ -36,7 +36,7 @@ import (
 var c19Feeders = []string{"sumdb", "tiles", "pixel", "rekor", "serverless", "distributor"}
 var c19Sizes = []string{"normal", "0", "2^62", "2^62+5", "2^63-1", "2^63", "2^64-1"}
 var c19Roots = []int{32, 0, 5, 33}
-var c19Nets = []string{"", "", "trunc:9", "trunc:100", "oversize:3000000", "garbage:11", "status:500", "status:404", "status:301", "stall", "empty", "corrupt:3", "drop", "contentlength:4611686018427387904", "contentlength:3"}
+var c19Nets = []string{"", "", "trunc:9", "trunc:100", "oversize:3000000", "garbage:11", "status:500", "status:404", "status:301", "stall", "empty", "corrupt:3", "drop", "contentlength:4611686018427387904", "contentlength:3", "literal:0", "literal:0", "literal:1", "literal:2", "literal:3", "literal:4", "literal:5", "literal:6", "literal:7", "literal:8", "literal:9"}
 
 func c19Size(s string) uint64 {
 	switch s {
